@@ -7,7 +7,7 @@ import verifylib as V
 ASSUME = [
     "index values and IDs are drawn from {x,y} and {a,ab,b,.,..}: byte order of the real keys equals segment-wise order for these (checked per run by the raw key dump comparison); values containing '/' or bytes below '/' are not explored",
     "a history's state is carried only by the Bolt file: tree edges restore the file content of the parent node and reopen the store (IndexedStore keeps no state in memory); random histories run on one open handle as a cross-check",
-    "injected failures are errors returned by tx.Put/tx.Delete (k-th write of a transaction); process crashes inside a Bolt commit are Bolt's own guarantee and are not exercised",
+    "injected failures are errors returned by tx.Put/tx.Delete (k-th write of a transaction) or by tx.Commit; process crashes inside a Bolt commit are Bolt's own guarantee and are not exercised",
     "path.Match is trusted; the specification's match table is compared with the table Go computes in every run",
     "TLC fingerprint collisions are negligible; the libflux link stub is never executed",
 ]
